@@ -43,6 +43,7 @@ enum Fault {
     ElifNonBoolean,
     TypeErrorInUnusedLet,
     TypeErrorInUnreadScopedDefinition,
+    TypeErrorInPrint,
 }
 
 const FAULTS: &[Fault] = &[
@@ -66,6 +67,7 @@ const FAULTS: &[Fault] = &[
     Fault::ElifNonBoolean,
     Fault::TypeErrorInUnusedLet,
     Fault::TypeErrorInUnreadScopedDefinition,
+    Fault::TypeErrorInPrint,
 ];
 
 impl Fault {
@@ -91,6 +93,7 @@ impl Fault {
             Fault::ElifNonBoolean => "elif_non_boolean",
             Fault::TypeErrorInUnusedLet => "type_error_in_unused_let",
             Fault::TypeErrorInUnreadScopedDefinition => "type_error_in_unread_scoped_definition",
+            Fault::TypeErrorInPrint => "type_error_in_print_argument",
         }
     }
     /// conflicts between two statements
@@ -137,6 +140,7 @@ fn fault_stmts(f: Fault, cap: Option<&str>) -> Option<Vec<GStmt>> {
             let c = cap?;
             vec![stmt(StmtKind::Node(GVar::u("zq_n"))), stmt(StmtKind::Let(GVar::s(GExpr::cap(c), "zq_unread"), GExpr::call("plus", vec![GExpr::Int(1), GExpr::str("two")])))]
         }
+        Fault::TypeErrorInPrint => vec![stmt(StmtKind::Node(GVar::u("zq_n"))), stmt(StmtKind::Print(vec![GExpr::str("zq"), GExpr::call("plus", vec![GExpr::Int(424242), GExpr::str("two")])]))],
         Fault::ForNonList => vec![stmt(StmtKind::Let(GVar::u("zq_l"), GExpr::List(vec![GExpr::Int(1)]))), stmt(StmtKind::For(GUVar::new("zq_x"), GExpr::Set(vec![GExpr::var("zq_l")]), vec![]))],
         Fault::UndefinedScopedViaLet => {
             let c = cap?;
@@ -206,7 +210,7 @@ fn fault_positions(f: Fault) -> (usize, Option<usize>) {
         Fault::ConflictingEdgeAttribute => (7, Some(5)),
         Fault::ConflictingNodeAttributeApart => (4, Some(2)),
         Fault::ElifNonBoolean => (0, None),
-        Fault::TypeErrorInUnusedLet | Fault::TypeErrorInUnreadScopedDefinition => (1, None),
+        Fault::TypeErrorInUnusedLet | Fault::TypeErrorInUnreadScopedDefinition | Fault::TypeErrorInPrint => (1, None),
     }
 }
 
@@ -234,7 +238,7 @@ fn is_marker(s: &GStmt) -> bool {
         StmtKind::Scan(x, _) => e(x),
         StmtKind::If(arms) => arms.iter().any(|a| a.conds.iter().any(|c| e(&c.expr))),
         StmtKind::For(v, x, _) => v.name.starts_with("zq_") || e(x),
-        _ => false,
+        StmtKind::Print(xs) => xs.iter().any(e),
     }
 }
 
@@ -256,6 +260,13 @@ impl Prop for C20 {
         gcfg.print = false;
         let prog = gen_program(rng, &gcfg);
         let source = if rng.chance(1, 3) { "def f(a, b):\n    x = g(a, b)\n    y = x.z\n    return [x, y, f(1, 2)]\nclass C:\n    k = f(3, 4)\n".to_string() } else { py::gen_any_source(rng, 10, 5) };
+        // now and then with carriage-return line-feed line ends
+        let source = if rng.chance(1, 8) && !source.contains('\r') {
+            out.feat("source_with_crlf_line_ends");
+            source.replace('\n', "\r\n")
+        } else {
+            source
+        };
         let tree = parse_python(&source);
         let ti = TreeInfo::new(&tree);
         if ti.anomaly.is_some() {
